@@ -72,11 +72,12 @@ def run(ctx):
     # the one degenerate table {0}: a regression scenario of its own (runs last, in its own process)
     zero_only = [{"id": "zeroonly", "kind": "session", "seed": ZERO_ONLY_SEED, "seedkind": "zeroonly", "biased": False, "smode": 2, "cmode": 0,
                   "writes": [{"side": "s", "n": 0}, {"side": "s", "n": 1}]}]
+    for i in range(6 if quick else 40):
+        scen.append({"id": "seedinject%d" % i, "kind": "seedinject", "seed": find_seeds(ctx, binary, "any", 1, 777 + i * 13 + ctx.seed)[0], "biased": bool(i % 2),
+                     "smode": i % 3, "cmode": 0, "writes": [{"side": "s", "n": n} for n in (1, 1427, 1428, 100, 2855)]})
     st = ctx.exec_scenarios(binary, scen, "sess", shards=14, timeout=1500)
     st += ctx.exec_scenarios(binary, zero_only, "zeroonly", timeout=120)
-    if any(e.get("event") == "DriverDead" for t in st for e in t["events"]):
-        bad = [e for t in st for e in t["events"] if e.get("event") == "DriverDead"][0]
-        raise Inconclusive("session driver failed: %s" % bad)
+    st = ctx.drop_dead(st)
     nw = sum(1 for t in st for e in t["events"] if e.get("event") == "Write")
     ctx.sample({"session": st[0]["scenario"], "events": [e for e in st[0]["events"] if e["event"] == "Write"][:3]})
     rejected = ctx.validate("Obfs4ShapingTrace", "Obfs4ShapingTrace.cfg", st, label="sessions: network write sizes vs length table", timeout=1200, max_rejects=8)
